@@ -7,7 +7,7 @@ import math
 import gen as G
 from props.C09 import plain
 
-M_REC_START, M_ENT_START, M_ENT_END, M_REC_END = "", "", "", ""
+from common import M_REC_START, M_ENT_START, M_ENT_END, M_REC_END
 
 
 class PakhiError(Exception):
@@ -439,7 +439,7 @@ def b_tonum(it, a):
 def b_type(it, a):
     v = a[0]
     if isinstance(v, bool):
-        return "_বুলিয়ান"
+        return G.canon("_বুলিয়ান")
     if isinstance(v, float):
         return "_সংখ্যা"
     if isinstance(v, str):
@@ -475,8 +475,8 @@ def b_error(it, a):
     raise PakhiError("runtime", "bad _এরর call")
 
 
-BUILTINS = {"_লিস্ট-পুশ": b_push, "_লিস্ট-পপ": b_pop, "_লিস্ট-লেন": b_len, "_স্ট্রিং": b_tostr, "_সংখ্যা": b_tonum,
-            "_টাইপ": b_type, "_স্ট্রিং-স্প্লিট": b_split, "_স্ট্রিং-জয়েন": b_join, "_এরর": b_error}
+BUILTINS = {G.canon(k): v for k, v in {"_লিস্ট-পুশ": b_push, "_লিস্ট-পপ": b_pop, "_লিস্ট-লেন": b_len, "_স্ট্রিং": b_tostr, "_সংখ্যা": b_tonum,
+            "_টাইপ": b_type, "_স্ট্রিং-স্প্লিট": b_split, "_স্ট্রিং-জয়েন": b_join, "_এরর": b_error}.items()}
 
 
 def run(prog, max_steps=200000):
